@@ -54,7 +54,10 @@ impl Prop for C18 {
     }
 
     fn strategy(_tier: Tier, _shard: u32) -> BoxedStrategy<Case> {
-        let words = || proptest::collection::vec(select(WORDS).prop_map(str::to_string), 0..=8);
+        let words = || prop_oneof![
+            16 => proptest::collection::vec(select(WORDS).prop_map(str::to_string), 0..=8),
+            1 => proptest::collection::vec(select(WORDS).prop_map(str::to_string), 9..=40),
+        ];
         let derived = (words(), proptest::collection::vec((any::<u8>(), any::<u16>(), select(WORDS).prop_map(str::to_string)), 0..=3)).prop_map(|(a, ed)| {
             let mut b = a.clone();
             for (k, pos, w) in ed {
